@@ -45,10 +45,23 @@ def trace_stage(ctx: Ctx):
             ctx.obligation(f"translate effect trace of {op}", False, str(t))
         else:
             ctx.obligation(f"translate effect trace of {op}", True)
+    missing, stale = T.completeness(ix)
+    if not ctx.obligation("every public method of the 7 Linker* component classes is an operation of T (or explicitly excluded)",
+                          not missing and not stale, f"not covered: {missing}; no longer in the code: {stale}"):
+        ctx.violation(f"public operations outside the scope of the check: {missing}; listed but gone: {stale}",
+                      {"broken": "operation list completeness", "missing": missing, "stale": stale}, found_input=False)
+    from harness import c08_x as X0
+    no_scenario = sorted(set(T.OPS) - {sc["op"] for sc in X0.scenarios().values()})
+    if not ctx.obligation("every operation of T has a fault-injection scenario", not no_scenario, str(no_scenario)):
+        ctx.violation(f"operations without an X scenario: {no_scenario}", {"broken": "scenario completeness", "ops": no_scenario},
+                      found_input=False)
     header = header_for(traces)
     bad, errs = ctx.eval_cases("C08_atomic", header, [f"p_{op}" for op in ok_ops], "atomicb", shard=50, timeout=300)
     for e in errs:
         ctx.obligation("atomicb evaluation", False, e)
+    if errs:
+        ctx.violation("atomicb could not be evaluated on the regenerated traces", {"broken": "atomicb evaluation", "errors": errs[:2]},
+                      found_input=False)
     nonatomic = [ok_ops[i] for i in bad]
     for op in ok_ops:
         ctx.obligation(f"atomicb trace_{op} = true", op not in nonatomic and not errs)
@@ -82,20 +95,46 @@ def plan(ctx: Ctx):
     from harness import c08_x as X
     rng = ctx.rng
     out = []
+
+    def cfgv(backend, link_type, retain, idx):
+        """a configuration on which the reference linker (prefix operations, predict and the later operations)
+        works; the data is re-drawn (same backend / link type / flags / prefix) when e.g. a trained u of 0 makes
+        predict raise; if no draw works the code under test can no longer run the prefix: reported"""
+        first = None
+        why = ""
+        for attempt in range(4):
+            cfg = X.gen_config(rng, backend, link_type, retain, idx)
+            if first is None:
+                first = cfg
+            else:
+                cfg.update({k: first[k] for k in ("prefix", "em_col", "later", "cache_later", "new_city", "max_iterations")})
+            try:
+                lk, _api, _ = X.build(cfg)
+                X.later_ops(lk, cfg)
+                if attempt:
+                    ctx.hist("configurations_redrawn", cfg["id"])
+                return cfg
+            except Exception as e:      # noqa: BLE001
+                why = f"{type(e).__name__}: {str(e)[-300:]}"
+        ctx.obligation(f"configuration {first['id']} (prefix {first['prefix']}) can be built", False, why)
+        ctx.violation(f"no configuration {first['id']} with prefix operations {first['prefix']} can be built and predicted on: {why}",
+                      {"broken": "scenario setup", "config": {k: v for k, v in first.items() if k != "rows"}, "error": why},
+                      found_input=False)
+        return None
     if ctx.quick:
         # primary: every fault point of every operation, every 3rd of the long clustering loops
-        a = X.gen_config(rng, "duckdb", "dedupe_only", False, 0)
+        a = cfgv("duckdb", "dedupe_only", False, 0)
         out.append((a, lambda sc: not sc["needs_retain"],
                     lambda sc: 3 if sc["heavy"] else 1))
-        b = X.gen_config(rng, "duckdb", "dedupe_only", True, 1)
+        b = cfgv("duckdb", "dedupe_only", True, 1)
         out.append((b, lambda sc: sc["needs_retain"] or sc["name"] in ("compare_two", "find_matches", "em"),
                     lambda sc: 1))
-        c = X.gen_config(rng, "duckdb", "link_only", False, 2)
+        c = cfgv("duckdb", "link_only", False, 2)
         out.append((c, lambda sc: sc["name"] in ("estimate_u", "em", "predict", "find_matches", "cluster", "cluster_best_links",
                                                  "m_pairwise", "labelling_tool", "unlinkables", "graph_metrics", "register_tf_lookup",
                                                  "U:em_no_pairs", "U:find_matches_missing_columns"),
                     lambda sc: 4 if sc["heavy"] else 2))
-        d = X.gen_config(rng, "sqlite", "dedupe_only", False, 3)
+        d = cfgv("sqlite", "dedupe_only", False, 3)
         out.append((d, lambda sc: sc["name"] in ("estimate_u", "em", "predict", "find_matches", "compare_two", "m_label",
                                                  "compute_tf_table", "register_tf_lookup", "register_predict", "query_sql",
                                                  "invalidate_cache", "U:em_no_pairs", "U:compare_two_missing_columns"),
@@ -108,7 +147,7 @@ def plan(ctx: Ctx):
             for lt in ("dedupe_only", "link_only"):
                 for retain in (False, True):
                     for _rep in range(2 if (backend, lt) == ("duckdb", "dedupe_only") else 1):
-                        out.append((X.gen_config(rng, backend, lt, retain, i), lambda sc: True, lambda sc: 1))
+                        out.append((cfgv(backend, lt, retain, i), lambda sc: True, lambda sc: 1))
                         i += 1
     return out
 
@@ -229,6 +268,8 @@ def run(ctx: Ctx):
         tasks = []
         only = os.environ.get("C08_SCENARIOS")          # development aid: restrict the scenarios
         for cfg, flt, stride_of in plan(ctx):
+            if cfg is None:
+                continue
             for name, sc in R.S.items():
                 if not flt(sc) or cfg["backend"] not in sc["backends"]:
                     continue
@@ -258,8 +299,22 @@ def run(ctx: Ctx):
     bad, errs = ctx.eval_cases("C08_x", header, terms, runner, shard=150, timeout=600) if terms else ([], [])
     for e in errs:
         ctx.log(e[-1500:])
+    floor = 1 if (ctx.replay or os.environ.get("C08_SCENARIOS")) else (300 if ctx.quick else 1500)
     ctx.obligation("correspondence: model run_case agrees with the real post-failure state on every fault point", not bad and not errs,
                    f"{len(bad)} of {len(terms)} disagree")
+    enough = ctx.obligation(f"at least {floor} fault points were evaluated against the model", len(terms) >= floor,
+                            f"only {len(terms)} cases")
+    if not enough:
+        ctx.violation(f"only {len(terms)} fault points reached the model comparison (floor {floor}): coverage collapsed",
+                      {"broken": "case floor", "cases": len(terms), "notes": ctx.notes[:10]}, found_input=False)
+    skipped = ctx.cov.get("input_distribution", {}).get("skipped_setup_failed", {})
+    ref_raises = R.stats.get("skipped_later_reference_raises", 0)
+    if not ctx.obligation("no scenario was dropped because its setup or the reference linker raised",
+                          not skipped and not ref_raises, f"setup failed: {skipped}; reference raises: {ref_raises}"):
+        ctx.violation(f"scenarios could not be set up on the code under test (setup failed: {skipped}; later operations raise on the "
+                      f"reference linker at {ref_raises} fault points)",
+                      {"broken": "scenario setup", "skipped": skipped, "notes": [n for n in ctx.notes if "skipped" in n][:10]},
+                      found_input=False)
     ctx.obligation("every executed SQL statement maps to a Sql site of the regenerated trace", not R.stats["unmapped_statements"],
                    json.dumps(R.stats["unmapped_statements"][:5]))
     ctx.cov["model_cases_evaluated_in_coq"] = len(terms)
@@ -286,8 +341,12 @@ def run(ctx: Ctx):
     ctx.cov["findings_by_class"] = {f"{op}/{leak}": f["count"] for (op, leak), f in R.findings.items()}
 
     # ---- disagreements model / real that are not explained by a finding
-    unexplained = [R.cases[i]["meta"] for i in bad if not R.cases[i]["meta"]["changed"]]
-    explained = [R.cases[i]["meta"] for i in bad if R.cases[i]["meta"]["changed"]]
+    # "explained" = the real state differs in its content (then a finding above reports it); a change of the identity of
+    # core_model_settings alone (FCoreModel) is no finding, so such a disagreement counts as unexplained
+    def vis(m):
+        return [f for f in m["changed"] if f != "FCoreModel"]
+    unexplained = [R.cases[i]["meta"] for i in bad if not vis(R.cases[i]["meta"])]
+    explained = [R.cases[i]["meta"] for i in bad if vis(R.cases[i]["meta"])]
     if explained:
         ctx.log(f"{len(explained)} fault points where the real state changed although the model predicted otherwise (see findings)")
         ctx.cov["model_missed_real_change"] = explained[:5]
